@@ -43,7 +43,7 @@ func TestC13Golden(t *testing.T) {
 		}
 		opts := rapid.SampledFrom([]string{"pool-binary", "small-tables"}).Draw(rt, "options")
 		open := func() (closer interface{ Close() error }, lines []string, observe func() []string) {
-			o := badger.DefaultOptions(db).WithTruncate(true).WithMaxCacheSize(1 << 20).WithLogger(nil)
+			o := badger.DefaultOptions(db).WithTruncate(true).WithMaxCacheSize(1 << 20).WithMaxTableSize(1 << 20).WithLogger(nil)
 			if opts == "small-tables" {
 				o = smallBadgerOpts(db)
 			}
